@@ -440,6 +440,21 @@ func cmdXform(args []string) int {
 			add([]string{"LZP", "ROLZ", "ROLZX"}[int(k)%3], fmt.Sprintf("dist:%d", v), v+100+20000, -1, "NONE")
 		}
 	}
+	// the same with a look-ahead configuration (a short match at P, a longer one at P+2 exactly v bytes back)
+	for k := uint(12); k <= 20; k++ {
+		if k > 17 && !*thorough {
+			break
+		}
+		for d := -3; d <= 3; d++ {
+			v := 1<<k + d
+			for _, t := range []string{"LZ", "LZX"} {
+				add(t, fmt.Sprintf("look:%d", v), v+200+30000, -1, "NONE")
+			}
+			if *thorough || d == -1 {
+				add([]string{"LZP", "ROLZ", "ROLZX"}[int(k)%3], fmt.Sprintf("look:%d", v), v+200+30000, -1, "NONE")
+			}
+		}
+	}
 	// blocks that start inside a multi-byte character (0..3 continuation bytes first) or with more stray continuation bytes
 	for v := 0; v <= 6; v++ {
 		for ti, t := range []string{"UTF", "TEXT+UTF", "TEXT", "UTF+LZ"} {
